@@ -53,6 +53,7 @@ type metaCase struct {
 	Obs    []metaObs `json:"obs"`
 	Viol   []string  `json:"viol,omitempty"`
 	sqlT   *fake.SQLTable
+	dyn    *fake.Dynamo
 }
 
 var metaIDs = []string{"_SK_svc_prod", "_IK_p1_svc_prod", "_IK_p2_svc_prod"}
@@ -119,14 +120,16 @@ func buildMetastore(c *metaCase) (ae.Metastore, error) {
 		if err != nil {
 			return nil, err
 		}
-		return dyn1.NewDynamoDBMetastore(sess, dyn1.WithClient(fake.DynamoV1{D: fake.NewDynamo(table)}), dyn1.WithTableName(c.Table),
+		c.dyn = fake.NewDynamo(table)
+		return dyn1.NewDynamoDBMetastore(sess, dyn1.WithClient(fake.DynamoV1{D: c.dyn}), dyn1.WithTableName(c.Table),
 			dyn1.WithDynamoDBRegionSuffix(c.Suffix)), nil
 	case "dynamo-v2":
 		table := c.Table
 		if table == "" {
 			table = "EncryptionKey"
 		}
-		return dyn2.NewDynamoDB(dyn2.WithDynamoDBClient(fake.DynamoV2{D: fake.NewDynamo(table), Region: "us-west-2"}), dyn2.WithTableName(c.Table),
+		c.dyn = fake.NewDynamo(table)
+		return dyn2.NewDynamoDB(dyn2.WithDynamoDBClient(fake.DynamoV2{D: c.dyn, Region: "us-west-2"}), dyn2.WithTableName(c.Table),
 			dyn2.WithRegionSuffix(c.Suffix))
 	}
 	return nil, fmt.Errorf("unknown implementation %q", c.Impl)
@@ -150,8 +153,12 @@ func runMetaCase(c *metaCase) {
 	stored := map[[2]int64]bool{} // (id, created) of every Store that reported success
 	for i, op := range c.Ops {
 		var ob metaObs
+		faultable := c.sqlT != nil || c.dyn != nil
 		if op.Fault != "" && c.sqlT != nil {
 			c.sqlT.FailNext = op.Fault
+		}
+		if op.Fault != "" && c.dyn != nil {
+			c.dyn.FailNext = op.Fault
 		}
 		func() {
 			defer func() {
@@ -163,7 +170,10 @@ func runMetaCase(c *metaCase) {
 			switch op.K {
 			case "store":
 				ok, err := ms.Store(ctx, metaIDs[op.ID], op.C, op.Rec.toEKR())
-				if op.Fault != "" && c.sqlT != nil && !ok && err != nil {
+				if op.Fault != "" && faultable && ok {
+					c.Viol = append(c.Viol, fmt.Sprintf("op %d: Store reported success although the write failed (%s) and nothing was written", i, op.Fault))
+				}
+				if op.Fault != "" && faultable && !ok && err != nil {
 					ob.R = "err" // refused by the engine, nothing written: not part of the table's history
 					break
 				}
@@ -185,7 +195,7 @@ func runMetaCase(c *metaCase) {
 					e, err = ms.LoadLatest(ctx, metaIDs[op.ID])
 				}
 				switch {
-				case err != nil && op.Fault != "" && c.sqlT != nil:
+				case err != nil && op.Fault != "" && faultable:
 					ob.R, ob.Err = "err", err.Error() // the read could not be completed and said so
 				case err != nil:
 					ob.R, ob.Err = "err", err.Error()
@@ -227,6 +237,7 @@ func genMetaCase(r *gen.Rand, impl string) *metaCase {
 	}
 	n := 4 + r.Intn(16)
 	sql := len(impl) > 4 && impl[:4] == "sql-"
+	dynamo := len(impl) > 7 && impl[:7] == "dynamo-"
 	stamps := []int64{1, 2, 3, 10, 1790000000, 1790000060}
 	for i := 0; i < n; i++ {
 		id := r.Intn(len(metaIDs))
@@ -255,6 +266,19 @@ func genMetaCase(r *gen.Rand, impl string) *metaCase {
 				last.Fault = "exec"
 			} else {
 				last.Fault = gen.Pick(r, []string{"query", "rows", "rows"})
+			}
+		}
+		if dynamo && r.Chance(1, 6) { // the service (or the way to it) fails this one request with an SDK-typed error
+			last := &c.Ops[len(c.Ops)-1]
+			code := gen.Pick(r, []string{"InternalServerError", "RequestError", "RequestCanceled", "ProvisionedThroughputExceededException",
+				"ResourceNotFoundException", "ThrottlingException", "ServiceUnavailable", "RequestLimitExceeded"})
+			switch last.K {
+			case "store":
+				last.Fault = "put:" + code
+			case "load":
+				last.Fault = "get:" + code
+			default:
+				last.Fault = "query:" + code
 			}
 		}
 	}
